@@ -472,6 +472,7 @@ class Interp:
         self.ext_summaries = {}   # "urllib.parse.unquote" -> fn(interp, pos, kw, node)
         self.hole_free_of = ""    # characters the symbolic holes are assumed not to contain
         self._mod_busy = set()
+        self.holes_containing = {}    # {hole-name prefix: text the hole is known to contain}
         self.vfs = None           # scenario mode: {path name: MemFile content}; open()/unlink act on it
         self.construct_real = set()   # package classes whose constructor is evaluated (their __init__ run on a fresh object)
         self.construct_helpers = True # ...and every package class that is not one of the domain classes below (helper objects)
@@ -1592,6 +1593,10 @@ class Interp:
             if isinstance(item, str):
                 if isinstance(coll, str):
                     return item in coll
+                for prefix_, text_ in self.holes_containing.items():
+                    # a hole known to contain some text (an encoded value contains a '%')
+                    if item == text_ and any(isinstance(p, Sym) and p.name.startswith(prefix_) for p in coll.parts):
+                        return True
                 # holes are assumed free of the searched literal (recorded assumption)
                 return any(isinstance(p, str) and item in p for p in coll.parts)
             return ACond("in", item, coll, node)
@@ -2990,6 +2995,12 @@ class Interp:
                                                     and self._class_method(av_.kind, "__call__") is not None)):
             # an attribute holding a callable (self.transform)
             return self.call(base.attrs[attr], pos, kw, node, env)
+        if self._dictlike(base) is not None and self._class_method(base.kind, attr) is None and attr in (
+                "get", "setdefault", "pop", "items", "keys", "values", "update", "clear", "copy", "__contains__", "popitem", "move_to_end"):
+            # inherited from dict: acts on the object's items
+            if attr == "get" and pos and pos[0] not in self._dictlike(base) and self._class_method(base.kind, "__missing__") is not None and False:
+                pass
+            return self.call_method(self._dictlike(base), attr, pos, kw, node, env)
         if isinstance(base, Opaque) and base.attrs and base.name not in ("self", "cls") and base.kind not in ("obj", "iter", "list", "dict", "set"):
             # an object of a package class carrying its fields: run the class's own method on it
             m_ = self._class_method(base.kind, attr)
